@@ -100,6 +100,9 @@ def raw_apps(iface):
                         import sys
                         start_response("500 Internal Server Error", [("content-type", "text/plain"), ("x-second", "1")], sys.exc_info())
                     return [b"error page"]
+                if shape == "cookie_ws":  # hand-built lines with optional whitespace at either end, a trailing "; ", inner runs of blanks
+                    start_response("200 OK", [("content-type", "text/plain"), ("set-cookie", "theme=dark; Path=/; "), ("set-cookie", " sid=1"), ("set-cookie", "k=v "), ("x-sp", " padded  value "), ("x-sp", "two  blanks")])
+                    return [b"hello"]
                 if shape == "list_caps":  # a plain WSGI app is free to capitalise header names
                     start_response("200 OK", [("Content-Type", "text/plain"), ("Set-Cookie", "a=1"), ("Set-Cookie", "b=2"), ("X-Multi", "1"), ("X-Multi", "2"), ("x-multi", "3")])
                     return [b"hello"]
@@ -146,7 +149,7 @@ def raw_apps(iface):
             app.calls = 0
             app.closed = 0
             return app
-        return {s: (lambda s=s: mk(s)) for s in ("list", "list_caps", "restart_exc_info", "list2", "tuple", "empty", "empty_iter", "gen", "closeable", "raise_before", "raise_after_start", "raise_after_chunk")}
+        return {s: (lambda s=s: mk(s)) for s in ("list", "list_caps", "cookie_ws", "restart_exc_info", "list2", "tuple", "empty", "empty_iter", "gen", "closeable", "raise_before", "raise_after_start", "raise_after_chunk")}
 
     def amk(shape):
         async def app(scope, receive, send):
@@ -154,15 +157,23 @@ def raw_apps(iface):
             if shape == "raise_before":
                 raise Boom("before")
             hdrs = [(b"content-type", b"text/plain"), (b"set-cookie", b"a=1"), (b"set-cookie", b"b=Jos\xe9"), (b"x-multi", b"1"), (b"x-multi", b"2")]
+            if shape == "utf8_headers":  # header bytes that happen to be valid UTF-8 must come out as the same bytes
+                hdrs += [(b"x-utf8", b"r\xc3\xa9sum\xc3\xa9"), (b"set-cookie", b"u=\xc3\xa9"), (b"content-disposition", b'attachment; filename="\xe4\xb8\xad.txt"'), (b"x-sp", b" padded  value ")]
             await send({"type": "http.response.start", "status": 200, "headers": iter(hdrs) if shape == "headers_iter" else hdrs})
             if shape in ("mixed_sizes", "headers_iter"):
                 chunks = [b"s" * 40, b"L" * 65536, b"t" * 3] if shape == "mixed_sizes" else [b"body"]
                 for i, c in enumerate(chunks):
                     await send({"type": "http.response.body", "body": c, "more_body": i < len(chunks) - 1})
                 return
+            if shape in ("one_nokey", "two_nokey"):
+                # more_body defaults to False: the last message may leave the key out
+                if shape == "two_nokey":
+                    await send({"type": "http.response.body", "body": b"part0", "more_body": True})
+                await send({"type": "http.response.body", "body": b"last"})
+                return
             if shape == "raise_after_start":
                 raise Boom("after start")
-            n = {"one": 1, "two": 2, "three": 3, "nobody": 0, "raise_after_chunk": 2}[shape]
+            n = {"one": 1, "two": 2, "three": 3, "nobody": 0, "raise_after_chunk": 2, "utf8_headers": 1}[shape]
             if n == 0:
                 await send({"type": "http.response.body"})
                 return
@@ -173,7 +184,7 @@ def raw_apps(iface):
         app.calls = 0
         app.closed = 0
         return app
-    return {s: (lambda s=s: amk(s)) for s in ("one", "two", "three", "nobody", "mixed_sizes", "headers_iter", "raise_before", "raise_after_start", "raise_after_chunk")}
+    return {s: (lambda s=s: amk(s)) for s in ("one", "two", "three", "nobody", "one_nokey", "two_nokey", "utf8_headers", "mixed_sizes", "headers_iter", "raise_before", "raise_after_start", "raise_after_chunk")}
 
 
 # ------------------------------------------------------------------ wrappers
